@@ -133,12 +133,12 @@ func thorough(p *core.Prog, pr *rules.Property, c *core.Ctx, verif, repo string,
 	type result struct{ st, d string }
 	all := append(append(append([]string{}, patches...), seeds...), oks...)
 	results := make([]result, len(all))
-	workers := runtime.NumCPU() / 2
+	workers := runtime.NumCPU() - 2 // each variant analysis is a separate program load (about 0.6 GB at peak)
 	if workers < 1 {
 		workers = 1
 	}
-	if workers > 8 {
-		workers = 8
+	if workers > 14 {
+		workers = 14
 	}
 	var wg sync.WaitGroup
 	jobs := make(chan int)
